@@ -150,11 +150,12 @@ def check_box(case):
         outcome, out, err = evaluate_outcome(scorer, arr)
         if min(cut) >= 0:
             # the same tuple as an unsigned / narrower integer array must behave identically
-            for dt in (np.uint64, np.uint8, np.int32):
+            # (also numpy's distinct C `long long` scalar types, which print as int64 / uint64, and a big-endian layout)
+            for dt in (np.uint64, np.uint8, np.int32, np.longlong, np.ulonglong, np.dtype(">i8"), np.intp):
                 o2, out2, err2 = evaluate_outcome(scorer, arr.astype(dt))
                 same = o2 == outcome and (o2 != "value" or np.allclose(np.asarray(out2), np.asarray(out), rtol=1e-12, atol=1e-12, equal_nan=True))
                 if not same:
-                    raise Violation(f"cuts given as {np.dtype(dt).name} are treated differently from the same int64 cuts",
+                    raise Violation(f"cuts given as {np.dtype(dt).name} (dtype char {np.dtype(dt).char!r}, byte order {np.dtype(dt).byteorder!r}) are treated differently from the same int64 cuts",
                                     scorer=name, n=n, p=p, cut=list(cut), int64_outcome=outcome, other_outcome=o2,
                                     other_value=np.asarray(out2).tolist() if o2 == "value" else None)
         if not valid:
@@ -200,7 +201,8 @@ def malformed_cases(draw, tier):
     kind = draw(st.sampled_from(["mixed_batch", "float", "bool", "wrong_width", "zero_rows", "three_d", "list",
                                  "row_vector", "float_integral", "valid_batch", "int32", "empty_list", "uint_descending",
                                  "flat_multiple", "narrow_dtype_overflow", "pandas_float", "pandas_int", "pandas_bool",
-                                 "series_float"]))
+                                 "series_float", "timedelta64", "datetime64", "matrix", "masked_none_hidden", "masked_hides_invalid",
+                                 "longlong", "fortran_order", "strided_view", "read_only"]))
     case = {"scorer": name, "n": n, "p": p, "kind": kind}
     rows = [sorted(draw(st.lists(st.integers(-2, n + 2), min_size=k, max_size=k))) for _ in range(draw(st.integers(1, 5)))]
     case["rows"] = rows
@@ -267,6 +269,33 @@ def check_malformed(case):
         rows = valid_pool[:3]
         arg = pd.DataFrame(np.asarray(rows, dtype=np.int64), columns=[f"c{j}" for j in range(k)])
         expect_error = False
+    elif kind in ("timedelta64", "datetime64"):
+        # numpy files timedelta64 under its signed integers, but durations / time stamps are not positions
+        arg = np.asarray(valid_pool[:2], dtype=np.int64).astype("m8[ns]" if kind == "timedelta64" else "M8[ns]")
+    elif kind in ("matrix", "masked_none_hidden", "longlong", "fortran_order", "strided_view", "read_only"):
+        rows = valid_pool[:3] if n % 2 else valid_pool[-3:]
+        base = np.asarray(rows, dtype=np.int64)
+        if kind == "matrix":  # ndarray subclass (e.g. the result of scipy.sparse `.todense()`)
+            arg = np.matrix(base)
+        elif kind == "masked_none_hidden":
+            arg = np.ma.MaskedArray(base, mask=np.zeros(base.shape, dtype=bool))
+        elif kind == "longlong":  # e.g. np.asarray(array.array('q', ...)), Cython `long long` buffers
+            arg = base.astype(np.longlong if p % 2 else np.ulonglong)
+        elif kind == "fortran_order":
+            arg = np.asfortranarray(base)
+        elif kind == "strided_view":
+            arg = np.repeat(np.repeat(base, 2, axis=0), 2, axis=1)[::2, ::2]
+        else:
+            arg = base.copy()
+            arg.setflags(write=False)
+        expect_error = False
+    elif kind == "masked_hides_invalid":
+        # the mask hides an entry that is out of range: the data underneath are what would be used for slicing
+        base = np.asarray(valid_pool[:2], dtype=np.int64)
+        base[0, 0] = -3
+        mask = np.zeros(base.shape, dtype=bool)
+        mask[0, 0] = True
+        arg = np.ma.MaskedArray(base, mask=mask)
     elif kind == "float":
         arg = np.asarray(valid_pool[:2], dtype=float) + 0.5
     elif kind == "float_integral":
@@ -306,7 +335,7 @@ def check_malformed(case):
     if expect_error:
         if outcome != "ValueError":
             raise Violation(f"malformed cuts argument ({kind}) gave {outcome} instead of ValueError", scorer=name,
-                            n=n, p=p, arg=np.asarray(arg).tolist() if kind != "empty_list" else [])
+                            n=n, p=p, arg=str(np.asarray(arg).tolist())[:300] if kind != "empty_list" else [])
         return {"nontrivial": True, "classes": classes}
     if outcome not in ("value",):
         raise Violation(f"well-formed cuts argument ({kind}) gave {outcome}", scorer=name, n=n, p=p, rows=rows)
@@ -412,7 +441,8 @@ FACETS = [
           shards_quick=16, shards_thorough=16, max_samples=2),
     Facet(name="malformed_arrays", check=check_malformed, strategy=malformed_cases,
           rule=("batches mixing valid and invalid rows, float / integral-float / bool / int32 / wrong-width / 0-row / 3-D "
-                "arrays, nested lists, 1-D row vectors, empty list, descending rows in unsigned dtypes, rows whose difference overflows a narrow signed dtype, flat sequences holding several cuts, pandas containers (float / bool rejected, int64 accepted); every case is non-trivial"),
+                "arrays, nested lists, 1-D row vectors, empty list, descending rows in unsigned dtypes, rows whose difference overflows a narrow signed dtype, flat sequences holding several cuts, pandas containers (float / bool rejected, int64 accepted), "
+                "timedelta64 / datetime64 arrays (rejected), np.matrix / MaskedArray / long long / Fortran-ordered / strided / read-only arrays of valid cuts (accepted and scored), a mask hiding an out-of-range entry (rejected); every case is non-trivial"),
           n_quick=600, n_thorough=6000, shards_quick=4, shards_thorough=8),
     Facet(name="shared_cost_refit", kind="enumerate", enumerate=shared_cost_cells, check=check_shared_cost, exhaustive=True,
           rule=("LocalAnomalyScore(cost) fitted on n_small samples, then PELT / MovingWindow / SeededBinSeg holding the same cost "
